@@ -222,3 +222,70 @@ Definition C09_spec (aux : C09_aux) (o : parse_out) : bool :=
     list_eqb Zstr_eqb (gev_pairs (g_text (c_gev ch))) tx &&
     list_eqb Zstr_eqb (gev_pairs (g_section (c_gev ch))) se &&
     list_eqb Zstr_eqb (gev_pairs (g_lyric (c_gev ch))) ly).
+
+(** *** C01 and C12: queries against the exact rational time (Spec/C01.v) and order (Spec/C12.v) *)
+From CP Require Import Spec.C01 Spec.C12.
+
+Definition tm_of (c : cfg) (tm : list (Z * str)) : list (Z * Z) :=
+  map (fun p => (fst p, horner (tbl c) (snd p) 0)) tm.
+
+(** Is (res, tm, t) inside the quantifier of C01 (decided in integers)? *)
+Definition in_C01_domain (res : Z) (tm : list (Z * Z)) (t : Z) : bool :=
+  (1 <=? res) && (res <? 2 ^ 53) && forallb (fun p => (1 <=? snd p) && (snd p <=? 10 ^ 9)) tm
+  && (0 <=? t) && (t <? 2 ^ 53)
+  && (let '(N, D) := exact_frac res tm t in N <=? 10 ^ 12 * D).
+
+Definition C01q_spec (c : cfg) (i : C11q_in) (o : C11q_out) : bool :=
+  let '((res, tmraw), qs) := i in
+  let tm := tm_of c tmraw in
+  match o with
+  | Err _ => false
+  | Ok outs =>
+      same_len outs qs &&
+      forallb (fun qr =>
+                 let '((t, h), r) := qr in
+                 if in_C01_domain res tm t && (h =? 0) then
+                   match r with
+                   | Ok (us, idx) => within_slack res tm t us && (idx =? segments tm t - 1)
+                                     && (if t =? 0 then us =? 0 else true)
+                   | Err _ => false
+                   end
+                 else true)
+              (combine qs outs)
+  end.
+
+(** Chart level: aux = (resolution, tempo map as written); every timed point and every note end of the
+    implementation's chart is within the slack of the exact time of its tick. *)
+Definition C01c_spec (aux : bool * Z * list (Z * Z)) (o : parse_out) : bool :=
+  let '(wf, res, tm) := aux in
+  on_chart wf o (fun ch _ =>
+    forallb (fun e => negb (in_C01_domain res tm (t_tick e)) || within_slack res tm (t_tick e) (t_ts e))
+            (all_timed ch)
+    && forallb (fun p => match fst p with
+                         | Ok et => negb (in_C01_domain res tm et) || within_slack res tm et (snd p)
+                         | Err _ => false end) (note_ends ch)).
+
+(** C12: the queried ticks are given in ascending order. *)
+Definition C12q_spec (c : cfg) (i : C11q_in) (o : C11q_out) : bool :=
+  let '((res, tmraw), qs) := i in
+  let tm := tm_of c tmraw in
+  match o with
+  | Err _ => false
+  | Ok outs =>
+      let tmax := fold_left Z.max (map fst qs) 0 in
+      let strict := forallb (fun p => snd p * res <=? 30000000000) tm && in_C01_domain res tm tmax in
+      same_len outs qs &&
+      forallb (fun r => match r with Ok _ => true | Err _ => false end) outs &&
+      mono_b strict (map (fun qr => (fst (fst qr), match snd qr with Ok (us, _) => us | Err _ => 0 end))
+                         (combine qs outs))
+  end.
+
+(** Chart level: all timed points of all tracks, pairwise. *)
+Definition C12c_spec (wf : bool) (o : parse_out) : bool :=
+  on_chart wf o (fun ch _ =>
+    let pts := map (fun e => (t_tick e, t_ts e)) (all_timed ch)
+               ++ flat_map (fun p => match fst p with Ok et => [(et, snd p)] | Err _ => [] end) (note_ends ch) in
+    forallb (fun a => forallb (fun b =>
+               (if fst a =? fst b then snd a =? snd b else true)
+               && (if fst a <=? fst b then snd a <=? snd b else true)) pts) pts
+    && forallb (fun tr => forallb (fun e => t_ts (n_at e) <=? n_end_ts e) (it_notes tr)) (all_tracks ch)).
